@@ -1,5 +1,392 @@
-import Operon.Model.Quorum
-/-! placeholder while the model of the pinned behaviour is validated -/
+import Operon.Lemmas.C06
+/-!
+# C06 — quorum decisions follow the votes: no PERMIT without sufficient permit support
+
+Property theorems only.  Model: `Operon/Model/Quorum.lean` (hand-written; constants regenerated from the source
+into `Operon/Gen/QuorumConsts.lean` on every run; tied to `operon_ai/topology/quorum.py` by the differential
+correspondence of `harness/vf/props/c06.py`).
+
+Every statement quantifies over every configuration (strategy, custom threshold, `min_voters`), every electorate
+of any size and every behaviour of every voter (PERMIT / EXECUTE / BLOCK / DEFER / any other action / raising;
+numeric, absent or non-numeric confidence; rational weights and reliabilities).  The only hypotheses are the
+property's own domain (`NonNegThreshold`: a custom threshold is not negative; `Voter.Valid`: weights, reliabilities
+and confidences are not negative) and, for the unanimity clause, the reading `Attainable` / `Supported` explained
+there.  Each hypothesis comes with an `example` that meets it and a `…_witness` showing it cannot be dropped.
+-/
 namespace Operon.Quorum
-theorem c06_placeholder : True := trivial
+open Operon.Gen.Quorum
+
+/-! ### Soundness: PERMIT only on the strategy's criterion, never without a permit vote -/
+
+/-- The decision is PERMIT exactly when the quorum is reported reached — for every strategy, every ballot. -/
+theorem c06_permit_iff_reached (cfg : Cfg) (voters : List Voter) :
+    (runVote cfg voters).decision = .permit ↔ (runVote cfg voters).reached = true := by
+  unfold runVote
+  rw [decision_eq]
+  by_cases hg : nP (collect voters) + nB (collect voters) < cfg.minVoters
+  · simp only [hg, if_true]
+    have : (aggregate cfg voters.length (collect voters)).reached = false := by
+      cases h : (aggregate cfg voters.length (collect voters)).reached
+      · rfl
+      · have := (reached_iff cfg _ _).mp h; omega
+    simp [this]
+  · simp only [hg, if_false, decisionOf]
+    cases (aggregate cfg voters.length (collect voters)).reached <;> simp
+
+/-- A ballot in which no voter casts a permit vote is never reached and never PERMIT — all seven strategies,
+    default and custom (non-negative) thresholds, any `min_voters`, any weights and confidences. -/
+theorem c06_no_permit_without_permit_vote (cfg : Cfg) (voters : List Voter) (ht : NonNegThreshold cfg)
+    (h : ∀ v ∈ voters, (toVote v).kind ≠ .permit) :
+    (runVote cfg voters).reached = false ∧ (runVote cfg voters).decision ≠ .permit := by
+  have hr : (runVote cfg voters).reached = false := by
+    cases hrr : (runVote cfg voters).reached
+    · rfl
+    · have hp := stratReached_needs_permit cfg ht _ _ ((run_reached_iff cfg voters).mp hrr).2
+      obtain ⟨x, hx, hk⟩ := (nP_pos_iff _).mp hp
+      unfold collect at hx
+      rw [List.mem_map] at hx
+      obtain ⟨v, hv, rfl⟩ := hx
+      exact absurd hk (h v hv)
+  refine ⟨hr, ?_⟩
+  intro hd
+  rw [(c06_permit_iff_reached cfg voters).mp hd] at hr
+  cases hr
+
+/-- The same for `EmergencyQuorum` with any non-negative `emergency_threshold` … -/
+theorem c06_emergency_no_permit_without_permit_vote (t : Rat) (ht : 0 ≤ t) (cfg : Cfg)
+    (hc : emergencyCfg (some t) = some cfg) (voters : List Voter)
+    (h : ∀ v ∈ voters, (toVote v).kind ≠ .permit) :
+    (runVote cfg voters).reached = false ∧ (runVote cfg voters).decision ≠ .permit := by
+  apply c06_no_permit_without_permit_vote cfg voters _ h
+  have : cfg.custom = some t := by
+    unfold emergencyCfg at hc
+    split at hc <;> simp at hc
+    rw [← hc]
+  intro t' ht'
+  rw [this] at ht'
+  cases ht'
+  exact ht
+
+/-- … in particular with its default threshold (0.3 on the current tree): the configuration exists, is the count
+    strategy with `min_voters = 1`, and never permits without a permit vote. -/
+theorem c06_emergency_default_sound :
+    ∃ cfg, emergencyDefaultCfg = some cfg ∧ cfg.strategy = .threshold ∧
+      ∀ voters : List Voter, (∀ v ∈ voters, (toVote v).kind ≠ .permit) →
+        (runVote cfg voters).reached = false ∧ (runVote cfg voters).decision ≠ .permit := by
+  have h0 : 0 ≤ emergencyDefaultThreshold := by decide +kernel
+  have hc : emergencyDefaultCfg = some ⟨.threshold, some emergencyDefaultThreshold, emergencyMinVoters⟩ := by
+    decide +kernel
+  exact ⟨_, hc, rfl, fun voters h =>
+    c06_emergency_no_permit_without_permit_vote _ h0 _ hc voters h⟩
+
+/-- Reached exactly when the strategy's stated criterion is met by the votes cast (`Criterion`, written without
+    division, rounding or filtered lists): `t·(permit+block) < permit` on counts / effective weights / confident
+    effective weights; no block and a permit for UNANIMOUS; a permit vote and posterior above `t` for BAYESIAN;
+    the count — or the share of the colony, at least one — for THRESHOLD; and `min_voters` active votes. -/
+theorem c06_reached_iff_criterion (cfg : Cfg) (voters : List Voter) (ht : NonNegThreshold cfg)
+    (hv : ∀ v ∈ voters, v.Valid) :
+    (runVote cfg voters).reached = true ↔ Criterion cfg voters.length (collect voters) := by
+  rw [run_reached_iff]
+  exact stratReached_iff_criterion cfg ht _ (collect_valid hv)
+
+/-- … and that criterion cannot be met without a permit vote. -/
+theorem c06_criterion_needs_permit_vote (cfg : Cfg) (voters : List Voter) (ht : NonNegThreshold cfg)
+    (hv : ∀ v ∈ voters, v.Valid) (hc : Criterion cfg voters.length (collect voters)) :
+    ∃ v ∈ voters, (toVote v).kind = .permit := by
+  have hr := (c06_reached_iff_criterion cfg voters ht hv).mpr hc
+  have hp := stratReached_needs_permit cfg ht _ _ ((run_reached_iff cfg voters).mp hr).2
+  obtain ⟨x, hx, hk⟩ := (nP_pos_iff _).mp hp
+  unfold collect at hx
+  rw [List.mem_map] at hx
+  obtain ⟨v, hv', rfl⟩ := hx
+  exact ⟨v, hv', hk⟩
+
+/-- Fewer than `min_voters` permit+block votes: not reached, decision ABSTAIN, whatever the strategy. -/
+theorem c06_below_min_voters_abstains (cfg : Cfg) (voters : List Voter)
+    (h : nP (collect voters) + nB (collect voters) < cfg.minVoters) :
+    (runVote cfg voters).reached = false ∧ (runVote cfg voters).decision = .abstain := by
+  constructor
+  · cases hr : (runVote cfg voters).reached
+    · rfl
+    · have := ((run_reached_iff cfg voters).mp hr).1; omega
+  · unfold runVote; rw [decision_eq]; simp [h]
+
+/-- Any block vote defeats UNANIMOUS (custom threshold and weights are irrelevant). -/
+theorem c06_block_defeats_unanimous (cfg : Cfg) (voters : List Voter) (hs : cfg.strategy = .unanimous)
+    (hb : ∃ v ∈ voters, (toVote v).kind = .block) :
+    (runVote cfg voters).reached = false ∧ (runVote cfg voters).decision ≠ .permit := by
+  have hr : (runVote cfg voters).reached = false := by
+    cases hrr : (runVote cfg voters).reached
+    · rfl
+    · have h2 := ((run_reached_iff cfg voters).mp hrr).2
+      unfold StratReached at h2
+      simp only [hs] at h2
+      obtain ⟨v, hv, hk⟩ := hb
+      have : 0 < nB (collect voters) :=
+        (nB_pos_iff _).mpr ⟨toVote v, by unfold collect; exact List.mem_map.mpr ⟨v, hv, rfl⟩, hk⟩
+      omega
+  refine ⟨hr, fun hd => ?_⟩
+  rw [(c06_permit_iff_reached cfg voters).mp hd] at hr
+  cases hr
+
+/-! ### Unanimous permit -/
+
+/-- A non-empty electorate of at least `min_voters` voters who all cast a permit vote is PERMIT, whenever the
+    configured criterion is attainable by that electorate (`Attainable`: share threshold below 1, Bayesian
+    threshold at most the ½ prior, custom count at most the number of voters) and — for the weighted strategies —
+    some permit carries positive effective weight (`Supported`; with confidence ≥ CONFIDENCE_MIN for CONFIDENCE). -/
+theorem c06_unanimous_permit_is_permit (cfg : Cfg) (voters : List Voter) (hne : voters ≠ [])
+    (hall : ∀ v ∈ voters, (toVote v).kind = .permit) (hn : cfg.minVoters ≤ voters.length)
+    (hv : ∀ v ∈ voters, v.Valid) (ha : Attainable cfg voters.length) (hs : Supported cfg (collect voters)) :
+    (runVote cfg voters).reached = true ∧ (runVote cfg voters).decision = .permit := by
+  have hall' : ∀ x ∈ collect voters, x.kind = .permit := by
+    intro x hx; unfold collect at hx; rw [List.mem_map] at hx
+    obtain ⟨v, h1, rfl⟩ := hx; exact hall v h1
+  have hne' : collect voters ≠ [] := by
+    intro h; apply hne; unfold collect at h; simpa using h
+  have hlen := collect_length voters
+  have hr : (runVote cfg voters).reached = true := by
+    rw [run_reached_iff]
+    constructor
+    · rw [nP_of_all_permit hall', hlen]; omega
+    · have := stratReached_of_unanimous cfg hne' hall' (collect_valid hv) (by rw [hlen]; exact ha) hs
+      rw [hlen] at this; exact this
+  exact ⟨hr, (c06_permit_iff_reached cfg voters).mpr hr⟩
+
+/-! ### Monotonicity -/
+
+/-- General form: make any number of voters more favourable at once (each one unchanged, or its block turned into
+    a permit, or its permit's weight / confidence raised) — a PERMIT stays a PERMIT. -/
+theorem c06_improvement_monotone (cfg : Cfg) (voters voters' : List Voter)
+    (h : Pointwise (fun v v' => Improves (toVote v) (toVote v')) voters voters')
+    (hv : ∀ v ∈ voters, v.Valid) (hr : (runVote cfg voters).decision = .permit) :
+    (runVote cfg voters').decision = .permit ∧ (runVote cfg voters').reached = true := by
+  have hr1 := (c06_permit_iff_reached cfg voters).mp hr
+  have hp : Pointwise Improves (collect voters) (collect voters') := h.map (fun _ _ r => r)
+  obtain ⟨-, -, c3, -⟩ := improves_counts hp
+  obtain ⟨g, s⟩ := (run_reached_iff cfg voters).mp hr1
+  have hr2 : (runVote cfg voters').reached = true := by
+    rw [run_reached_iff]
+    refine ⟨by omega, ?_⟩
+    rw [← h.length_eq]
+    exact stratReached_mono cfg _ hp (collect_valid hv) s
+  exact ⟨(c06_permit_iff_reached cfg voters').mpr hr2, hr2⟩
+
+/-- Turning one block voter into a permit voter (same weight, reliability, confidence) never turns PERMIT into
+    anything else. -/
+theorem c06_flip_block_to_permit_monotone (cfg : Cfg) (before after : List Voter) (v : Voter)
+    (hk : v.kind = .block) (hv : ∀ x ∈ before ++ v :: after, x.Valid)
+    (hr : (runVote cfg (before ++ v :: after)).decision = .permit) :
+    (runVote cfg (before ++ { v with kind := .permit } :: after)).decision = .permit :=
+  (c06_improvement_monotone cfg _ _
+    (Pointwise.single (R := fun v v' => Improves (toVote v) (toVote v')) (fun _ => Or.inl rfl)
+      (improves_of_flip v hk) before after) hv hr).1
+
+/-- Raising the weight and/or the numeric confidence of one voter who casts a permit never turns PERMIT into
+    anything else. -/
+theorem c06_raise_permit_weight_or_confidence_monotone (cfg : Cfg) (before after : List Voter) (v : Voter)
+    (w' : Rat) (hw : v.weight ≤ w') (conf' : Conf)
+    (hc : conf' = v.conf ∨ ∃ c c', v.conf = .num c ∧ conf' = .num c' ∧ c ≤ c')
+    (hp : (toVote v).kind = .permit) (hv : ∀ x ∈ before ++ v :: after, x.Valid)
+    (hr : (runVote cfg (before ++ v :: after)).decision = .permit) :
+    (runVote cfg (before ++ { v with weight := w', conf := conf' } :: after)).decision = .permit := by
+  refine (c06_improvement_monotone cfg _ _ (Pointwise.single
+    (R := fun v v' => Improves (toVote v) (toVote v')) (fun x => Or.inl rfl) ?_ before after) hv hr).1
+  have hvv : v.Valid := hv v (by simp)
+  obtain ⟨hk, hnb⟩ := (casts_permit_iff v).mp hp
+  have hrel : v.weight * v.rel ≤ w' * v.rel := mul_le_mul_of_nonneg_right hw hvv.2.1
+  right; right
+  rcases hc with rfl | ⟨c, c', h1, rfl, hcc⟩
+  · unfold toVote
+    rcases hk with hk | hk <;> cases hcf : v.conf <;> simp_all [voteTypeOf]
+  · unfold toVote
+    rcases hk with hk | hk <;> simp [hk, h1, voteTypeOf, hrel, hcc]
+
+/-! ### Counts and idle voters -/
+
+/-- The reported counts are the ballots cast: one vote per colony member, in order; permit / block / abstain
+    counts are the numbers of such votes; together with the deferring voters they add up to the total. -/
+theorem c06_counts_equal_ballots (cfg : Cfg) (voters : List Voter) :
+    (runVote cfg voters).votes = voters.map toVote ∧
+    (runVote cfg voters).total = voters.length ∧
+    (runVote cfg voters).permit = (voters.filter fun v => (toVote v).kind = .permit).length ∧
+    (runVote cfg voters).block = (voters.filter fun v => (toVote v).kind = .block).length ∧
+    (runVote cfg voters).abstain = (voters.filter fun v => (toVote v).kind = .abstain).length ∧
+    (runVote cfg voters).permit + (runVote cfg voters).block + (runVote cfg voters).abstain
+      + (voters.filter fun v => (toVote v).kind = .defer).length = (runVote cfg voters).total := by
+  obtain ⟨h1, h2, h3, h4, h5⟩ := counts_eq cfg voters.length (collect voters)
+  have hf : ∀ k, (ofKind k (collect voters)).length = (voters.filter fun v => (toVote v).kind = k).length := by
+    intro k
+    unfold ofKind collect
+    rw [List.filter_map, List.length_map]
+    rfl
+  have hp := length_partition (collect voters)
+  have hd := hf .defer
+  unfold runVote
+  rw [h1, h2, h3, h4, h5]
+  refine ⟨rfl, collect_length voters, hf .permit, hf .block, hf .abstain, ?_⟩
+  unfold nD at hp
+  omega
+
+/-- Which vote a voter casts: PERMIT/EXECUTE ↦ permit, BLOCK ↦ block (with a usable confidence); a voter that
+    raises or reports a non-numeric confidence is a zero-confidence ABSTAIN. -/
+theorem c06_vote_cast_by_each_voter (v : Voter) :
+    ((toVote v).kind = .permit ↔ (v.kind = .permit ∨ v.kind = .execute) ∧ v.conf ≠ .bad) ∧
+    ((toVote v).kind = .block ↔ v.kind = .block ∧ v.conf ≠ .bad) ∧
+    ((v.kind = .raises ∨ v.conf = .bad) → toVote v = ⟨.abstain, 0, v.weight⟩) :=
+  ⟨casts_permit_iff v, casts_block_iff v, failed_is_abstain v⟩
+
+/-- Abstaining, deferring and failed voters never count as support (1): replace any of them by any other idle
+    voters — whatever weight, reliability, confidence — and reached, decision and the permit/block counts are
+    unchanged. -/
+theorem c06_abstain_failed_never_support (cfg : Cfg) (voters voters' : List Voter)
+    (h : Pointwise (fun v v' => SameUpToIdle (toVote v) (toVote v')) voters voters') :
+    (runVote cfg voters').reached = (runVote cfg voters).reached ∧
+    (runVote cfg voters').decision = (runVote cfg voters).decision ∧
+    (runVote cfg voters').permit = (runVote cfg voters).permit ∧
+    (runVote cfg voters').block = (runVote cfg voters).block := by
+  have hp : Pointwise SameUpToIdle (collect voters) (collect voters') := h.map (fun _ _ r => r)
+  obtain ⟨c1, c2, hs⟩ := stratReached_idle_irrelevant cfg voters.length hp
+  have hlen := h.length_eq
+  have hreach : (runVote cfg voters').reached = (runVote cfg voters).reached := by
+    have e : (runVote cfg voters').reached = true ↔ (runVote cfg voters).reached = true := by
+      rw [run_reached_iff, run_reached_iff, ← c1, ← c2, ← hlen, hs]
+    cases h1 : (runVote cfg voters').reached <;> cases h2 : (runVote cfg voters).reached <;> simp_all
+  refine ⟨hreach, ?_, ?_, ?_⟩
+  · unfold runVote at *
+    rw [decision_eq, decision_eq, hreach, c1, c2]
+  · unfold runVote; rw [(counts_eq _ _ _).2.1, (counts_eq _ _ _).2.1, c1]
+  · unfold runVote; rw [(counts_eq _ _ _).2.2.1, (counts_eq _ _ _).2.2.1, c2]
+
+/-- … (2): strike the idle voters from the colony altogether and a PERMIT is still a PERMIT — they contributed
+    nothing to it (for the count strategy a smaller colony can only need fewer permits). -/
+theorem c06_permit_survives_without_idle_voters (cfg : Cfg) (voters : List Voter)
+    (hr : (runVote cfg voters).decision = .permit) :
+    (runVote cfg (voters.filter fun v => (toVote v).active)).decision = .permit := by
+  have hr1 := (c06_permit_iff_reached cfg voters).mp hr
+  obtain ⟨g, s⟩ := (run_reached_iff cfg voters).mp hr1
+  have hc : collect (voters.filter fun v => (toVote v).active) = (collect voters).filter Vote.active := by
+    unfold collect; rw [List.filter_map]; rfl
+  apply (c06_permit_iff_reached cfg _).mpr
+  rw [run_reached_iff, hc]
+  have c1 : nP ((collect voters).filter Vote.active) = nP (collect voters) := by
+    unfold nP; rw [ofKind_filter_active _ (Or.inl rfl)]
+  have c2 : nB ((collect voters).filter Vote.active) = nB (collect voters) := by
+    unfold nB; rw [ofKind_filter_active _ (Or.inr rfl)]
+  refine ⟨by omega, ?_⟩
+  have := stratReached_drop_idle cfg (collect voters) (by rw [collect_length]; exact s)
+  rw [← hc, collect_length] at this
+  rw [← hc]; exact this
+
+/-! ### Totality and the extracted constants -/
+
+/-- `run_vote` returns a result for every non-empty colony (the only raise of the model is the count strategy's
+    division by an empty colony). -/
+theorem c06_run_vote_returns (cfg : Cfg) (voters : List Voter) (hne : voters ≠ []) :
+    runVoteRaises cfg voters = false := by
+  unfold runVoteRaises
+  have : voters.length ≠ 0 := by
+    intro h; exact hne (List.length_eq_zero_iff.mp h)
+  simp [this]
+
+/-- The constants read from the current source are in the range the theorems above rely on: default thresholds
+    in [0,1), uniform positive priors, likelihood centred at ½ with positive gain, fallback posterior in [0,1];
+    and the default criteria are attainable (so unanimity applies to every default configuration). -/
+theorem c06_constants_table :
+    0 ≤ majorityThreshold ∧ majorityThreshold < 1 ∧ 0 ≤ supermajorityThreshold ∧ supermajorityThreshold < 1 ∧
+    adjBase = 1 / 2 ∧ likBase = 1 / 2 ∧ adjCentre = 1 / 2 ∧ 0 < likGain ∧
+    priorPermit = priorBlock ∧ 0 < priorPermit ∧ 0 ≤ posteriorFallback ∧ posteriorFallback ≤ 1 ∧
+    majorityThreshold ≤ 1 / 2 ∧ 0 ≤ confidenceMin ∧ confidenceMin ≤ 1 ∧
+    (∀ s n, Attainable ⟨s, none, 1⟩ n) := by
+  refine ⟨const_facts.1, const_facts.2.1, const_facts.2.2.1, const_facts.2.2.2.1, const_facts.2.2.2.2.1,
+    const_facts.2.2.2.2.2.1, const_facts.2.2.2.2.2.2.1, const_facts.2.2.2.2.2.2.2.1,
+    const_facts.2.2.2.2.2.2.2.2.1, const_facts.2.2.2.2.2.2.2.2.2.1, const_facts.2.2.2.2.2.2.2.2.2.2.1,
+    const_facts.2.2.2.2.2.2.2.2.2.2.2, by decide +kernel, by decide +kernel, by decide +kernel, ?_⟩
+  intro s n
+  have h1 : majorityThreshold < 1 := const_facts.2.1
+  have h2 : supermajorityThreshold < 1 := const_facts.2.2.2.1
+  have h3 : majorityThreshold ≤ 1 / 2 := by decide +kernel
+  cases s <;> simp only [Attainable, effThreshold] <;> first | exact h1 | exact h2 | exact h3
+
+/-! ### Non-vacuity: concrete electorates meeting the hypotheses, and witnesses that no hypothesis can be dropped -/
+
+/-- the two repaired defects, on the model: three blocks under BAYESIAN and two blocks under the default
+    EmergencyQuorum are BLOCK, not PERMIT (hypotheses of `c06_no_permit_without_permit_vote` are satisfiable) -/
+example : (runVote ⟨.bayesian, none, 1⟩ [voterOf .block 1 1, voterOf .block 1 1, voterOf .block 1 1]).decision = .block ∧
+    (∀ cfg, emergencyDefaultCfg = some cfg → (runVote cfg [voterOf .block 1 1, voterOf .block 1 1]).decision = .block) := by
+  decide +kernel
+
+/-- `NonNegThreshold` cannot be dropped: with a negative custom threshold a lone block vote is PERMIT -/
+theorem c06_negative_threshold_witness :
+    (runVote ⟨.majority, some (-1 / 2), 1⟩ [voterOf .block 1 1]).decision = .permit ∧
+    (runVote ⟨.threshold, some (-1), 1⟩ [voterOf .block 1 1]).decision = .permit := by decide +kernel
+
+/-- a mixed valid ballot that is reached, and one that is not (both sides of `c06_reached_iff_criterion`) -/
+example : (runVote ⟨.weighted, some (3 / 5), 2⟩ [voterOf .permit 2 1, voterOf .execute 1 (1 / 2), voterOf .block 1 1, voterOf .raises 2 1]).reached = true ∧
+    (runVote ⟨.weighted, some (3 / 4), 2⟩ [voterOf .permit 2 1, voterOf .execute 1 (1 / 2), voterOf .block 1 1, voterOf .raises 2 1]).reached = false := by
+  decide +kernel
+
+/-- hypotheses of the unanimity theorem are satisfiable for every strategy, e.g. WEIGHTED with one zero-weight
+    permit among supported ones, BAYESIAN at the default threshold, a custom count of 2 among 3 voters -/
+example : (runVote ⟨.weighted, none, 2⟩ [voterOf .permit 1 1, voterOf .execute 0 1]).decision = .permit :=
+  (c06_unanimous_permit_is_permit ⟨.weighted, none, 2⟩ [voterOf .permit 1 1, voterOf .execute 0 1] (by simp)
+    (by decide +kernel) (by decide)
+    (by intro v hv; simp at hv; rcases hv with rfl | rfl <;> exact voterOf_valid (by decide +kernel) (by decide +kernel))
+    (by unfold Attainable; decide +kernel)
+    (by unfold Supported; refine ⟨toVote (voterOf .permit 1 1), ?_, ?_, ?_⟩ <;> decide +kernel)).2
+
+example : (runVote ⟨.bayesian, none, 1⟩ [voterOf .permit (1 / 4) (1 / 2), voterOf .permit 0 1]).decision = .permit :=
+  (c06_unanimous_permit_is_permit ⟨.bayesian, none, 1⟩ [voterOf .permit (1 / 4) (1 / 2), voterOf .permit 0 1] (by simp)
+    (by decide +kernel) (by decide)
+    (by intro v hv; simp at hv; rcases hv with rfl | rfl <;> exact voterOf_valid (by decide +kernel) (by decide +kernel))
+    (by unfold Attainable; decide +kernel)
+    (by unfold Supported; refine ⟨toVote (voterOf .permit (1 / 4) (1 / 2)), ?_, ?_, ?_⟩ <;> decide +kernel)).2
+
+example : (runVote ⟨.confidence, some (3 / 4), 1⟩ [voterOf .permit 1 (1 / 2), voterOf .permit 1 (1 / 4)]).decision = .permit :=
+  (c06_unanimous_permit_is_permit ⟨.confidence, some (3 / 4), 1⟩ [voterOf .permit 1 (1 / 2), voterOf .permit 1 (1 / 4)] (by simp)
+    (by decide +kernel) (by decide)
+    (by intro v hv; simp at hv; rcases hv with rfl | rfl <;> exact voterOf_valid (by decide +kernel) (by decide +kernel))
+    (by unfold Attainable; decide +kernel)
+    (by unfold Supported; refine ⟨toVote (voterOf .permit 1 (1 / 2)), ?_, ?_, ?_, ?_⟩ <;> decide +kernel)).2
+
+example : (runVote ⟨.threshold, some 2, 1⟩ [voterOf .permit 1 1, voterOf .permit 1 1, voterOf .execute 1 1]).decision = .permit :=
+  (c06_unanimous_permit_is_permit ⟨.threshold, some 2, 1⟩ [voterOf .permit 1 1, voterOf .permit 1 1, voterOf .execute 1 1] (by simp)
+    (by decide +kernel) (by decide)
+    (by intro v hv; simp at hv; rcases hv with rfl | rfl | rfl <;> exact voterOf_valid (by decide +kernel) (by decide +kernel))
+    (by unfold Attainable; right; decide +kernel) (by unfold Supported; trivial)).2
+
+/-- the unanimity hypotheses cannot be dropped, one by one: an empty electorate (`min_voters = 0`); fewer voters
+    than `min_voters`; an unattainable criterion (share threshold 1; a count of 5 among 3 voters; a Bayesian
+    threshold of ¾ against one weak permit, posterior 0.55); an unsupported one (zero weight under WEIGHTED and
+    BAYESIAN; confidence ¼ < CONFIDENCE_MIN under CONFIDENCE); a negative weight cancelling a positive one -/
+theorem c06_unanimity_hypotheses_witness :
+    (runVote ⟨.majority, none, 0⟩ []).decision = .block ∧
+    (runVote ⟨.majority, none, 2⟩ [voterOf .permit 1 1]).decision = .abstain ∧
+    (runVote ⟨.majority, some 1, 1⟩ [voterOf .permit 1 1, voterOf .permit 1 1]).decision = .block ∧
+    (runVote ⟨.threshold, some 5, 1⟩ [voterOf .permit 1 1, voterOf .permit 1 1, voterOf .permit 1 1]).decision = .block ∧
+    (runVote ⟨.bayesian, some (3 / 4), 1⟩ [voterOf .permit (1 / 4) (1 / 2)]).decision = .block ∧
+    (runVote ⟨.weighted, none, 1⟩ [voterOf .permit 0 1, voterOf .permit 1 0]).decision = .block ∧
+    (runVote ⟨.bayesian, none, 1⟩ [voterOf .permit 0 1]).decision = .block ∧
+    (runVote ⟨.confidence, none, 1⟩ [voterOf .permit 1 (1 / 4)]).decision = .block ∧
+    (runVote ⟨.weighted, none, 1⟩ [voterOf .permit 1 1, voterOf .permit (-1) 1]).decision = .block := by
+  decide +kernel
+
+/-- hypotheses of the monotonicity theorems are satisfiable: a PERMIT with a block voter to flip and a permit
+    voter to strengthen -/
+example : (runVote ⟨.bayesian, some (3 / 5), 2⟩ [voterOf .permit 1 1, voterOf .block (1 / 2) (1 / 2), voterOf .permit 1 (1 / 4)]).decision = .permit ∧
+    (runVote ⟨.bayesian, some (3 / 5), 2⟩ [voterOf .permit 1 1, voterOf .permit (1 / 2) (1 / 2), voterOf .permit 1 (1 / 4)]).decision = .permit ∧
+    (runVote ⟨.bayesian, some (3 / 5), 2⟩ [voterOf .permit 1 1, voterOf .block (1 / 2) (1 / 2), voterOf .permit 2 (1 / 2)]).decision = .permit := by
+  decide +kernel
+
+/-- `Voter.Valid` cannot be dropped from monotonicity: flipping a block voter of negative weight to permit
+    loses the PERMIT (WEIGHTED, threshold ¾) -/
+theorem c06_monotonicity_needs_valid_witness :
+    (runVote ⟨.weighted, some (3 / 4), 1⟩ [voterOf .permit 1 1, voterOf .block (-1 / 2) 1, voterOf .block (1 / 4) 1]).decision = .permit ∧
+    (runVote ⟨.weighted, some (3 / 4), 1⟩ [voterOf .permit 1 1, voterOf .permit (-1 / 2) 1, voterOf .block (1 / 4) 1]).decision = .block := by
+  decide +kernel
+
+/-- idle voters exist in every flavour and change nothing: abstain, defer, raising, non-numeric confidence -/
+example : (runVote ⟨.confidence, none, 1⟩ [voterOf .permit 1 1, voterOf .other 2 1, voterOf .defer 2 1, voterOf .raises 2 1, ⟨.permit, .bad, 2, 1⟩, voterOf .block 1 1]).decision
+    = (runVote ⟨.confidence, none, 1⟩ [voterOf .permit 1 1, voterOf .block 1 1]).decision := by decide +kernel
+
 end Operon.Quorum
